@@ -1,7 +1,7 @@
 (* C15 -- independent instances may be used concurrently from different threads.
    Property theorems only: statement + exact + Print Assumptions. *)
 From Coq Require Import List ZArith String Bool.
-From LJT Require Import model.Threads model.Globals model.ErrState gen.GenGlobals gen.GenGlobalsBin proofs.ThreadsProofs proofs.GlobalsProofs proofs.GlobalsBinProofs proofs.ErrStateProofs model.DestFlow proofs.DestFlowProofs.
+From LJT Require Import model.Threads model.Globals model.ErrState gen.GenGlobals gen.GenGlobalsBin proofs.ThreadsProofs proofs.GlobalsProofs proofs.GlobalsBinProofs proofs.ErrStateProofs model.DestFlow proofs.DestFlowProofs model.ErrCode proofs.ErrCodeProofs.
 Import ListNotations.
 
 (* (1) noninterference -- generic: ALL programs, ALL interleavings, unbounded.
@@ -101,6 +101,33 @@ Print Assumptions C15_errstate_threads.
 Theorem C15_source_errstate : errstate_source_b = true.
 Proof. exact errstate_source_check. Qed.
 Print Assumptions C15_source_errstate.
+
+(* (3b') error CODE ownership (model/ErrCode.v: jerr.warning as src/turbojpeg.c has it -- cleared at every API entry, cleared by
+   THROW* and my_error_exit, set by my_emit_message for a warning): tj3GetErrorCode of an instance depends only on that
+   instance's own most recent failing call, whatever happens on other instances or in instance-less functions ... *)
+Theorem C15_errcode_ownership :
+  forall pre i w mid s,
+    forallb (fun o => negb (ctouches i o)) mid = true ->
+    exists rs, snd (crun (pre ++ [CFail i w] ++ mid ++ [CCode i]) s) = (rs ++ [code_of w])%list.
+Proof. exact errcode_ownership_proof. Qed.
+Print Assumptions C15_errcode_ownership.
+
+(* ... under every interleaving of threads on exclusive instances (the steps satisfy the noninterference hypotheses) *)
+Theorem C15_errcode_threads :
+  forall ths, cinst_exclusive ths ->
+  forall tr, is_interleaving (cprog ths) tr ->
+  forall s0, solo_equivalent (cprog ths) tr s0 /\ conflict_free (cprog ths).
+Proof. exact errcode_threads_proof. Qed.
+Print Assumptions C15_errcode_threads.
+
+(* the rules are the C text's (generated write sites of jerr.warning), and the extracted code replay is the thread-model
+   replay / for one thread the model crun *)
+Theorem C15_source_errcode :
+  errcode_source_b = true /\
+  (forall tr ls s, (forall l, lget ls l = s l) -> lcreplay tr ls = creplay tr s) /\
+  (forall t tr s w, w_rel s w -> creplay (map (pair t) tr) s = snd (crun tr w)).
+Proof. exact (conj errcode_source_check (conj lcreplay_correct (fun t tr s w => creplay_is_crun t tr s w))). Qed.
+Print Assumptions C15_source_errcode.
 
 (* (3c) the dummy destination buffer installed by tj3Init is replaced before the first byte is emitted: over the GENERATED
    structured call trees of every function of src/turbojpeg.c / turbojpeg-mp.c that can emit JPEG bytes (callees first),
